@@ -4,3 +4,4 @@ pub mod breaker_model;
 pub mod breaker_conc;
 pub mod retry;
 pub mod timelimiter;
+pub mod backoff;
